@@ -121,7 +121,11 @@ Section Alg.
     { assert (Rabs (v * (u + v) + E * t * (s + t)) <= v * (u + v) + 2 * E).
       { assert (Q : -2 <= t * (s + t) <= 2) by nra. apply Rabs_le. split; nra. }
       assert (0 < v * (u + v)) by nra.
-      assert ((1 - E) * (v * (u + v)) <= (1 - E) * (u + v)) by nra.
+      assert (Q1 : v * (u + v) <= u + v) by nra.
+      assert (Q2 : (1 - E) * (v * (u + v)) <= (1 - E) * (u + v)) by (apply Rmult_le_compat_l; lra).
+      assert (Q3 : 2 * E * (1 - E) <= E * (u + v)) by nra.
+      set (R0 := Rabs (v * (u + v) + E * t * (s + t))) in *.
+      assert (R0 * (1 - E) <= (v * (u + v) + 2 * E) * (1 - E)) by (apply Rmult_le_compat_r; lra).
       nra. }
     pose proof (Rabs_pos (s - t)). pose proof (Rabs_pos (s * v - t * u)).
     apply (Rmult_le_reg_r (u + v)); [lra|]. nra.
@@ -136,7 +140,9 @@ Section Alg.
     pose proof (Rabs_pos (s * v - t * u)) as PA.
     assert (Hinv : / (u * v) * ((1 - E) * (1 - E)) <= 1).
     { apply (Rmult_le_reg_l (u * v)); [exact Huv|]. rewrite <- Rmult_assoc, Rinv_r by lra. nra. }
-    simpl. nra.
+    set (A := Rabs (s * v - t * u)) in *. set (I := / (u * v)) in *.
+    replace (A * I * (1 - E) ^ 3) with ((A * (1 - E)) * (I * ((1 - E) * (1 - E)))) by (simpl; ring).
+    apply Rle_trans with (A * (1 - E) * 1); [apply Rmult_le_compat_l; [nra|exact Hinv]|lra].
   Qed.
 
   Lemma inv_lip : Rabs (/ u - / v) * (1 - E) ^ 3 <= E * Rabs (s - t).
@@ -147,16 +153,23 @@ Section Alg.
     assert (A : Rabs (v - u) * (u + v) <= 2 * E * Rabs (s - t)).
     { rewrite <- (Rabs_right (u + v)) at 1 by lra. rewrite <- Rabs_mult, Id, Rabs_mult, Rabs_mult.
       rewrite (Rabs_right E) by lra. assert (Rabs (s + t) <= 2) by (apply Rabs_le; lra).
-      pose proof (Rabs_pos (s - t)). nra. }
+      pose proof (Rabs_pos (s - t)) as P0.
+      assert (P1 : Rabs (s - t) * Rabs (s + t) <= Rabs (s - t) * 2) by (apply Rmult_le_compat_l; lra).
+      assert (P2 : E * (Rabs (s - t) * Rabs (s + t)) <= E * (Rabs (s - t) * 2)) by (apply Rmult_le_compat_l; lra).
+      lra. }
     assert (B : Rabs (v - u) * (1 - E) <= E * Rabs (s - t)).
-    { pose proof (Rabs_pos (v - u)). pose proof (Rabs_pos (s - t)). nra. }
+    { pose proof (Rabs_pos (v - u)) as P0. pose proof (Rabs_pos (s - t)) as P1.
+      assert (P2 : Rabs (v - u) * (2 * (1 - E)) <= Rabs (v - u) * (u + v)) by (apply Rmult_le_compat_l; lra).
+      lra. }
     replace (/ u - / v) with ((v - u) * / (u * v)) by (field; lra).
     assert (Huv : 0 < u * v) by nra.
     rewrite Rabs_mult, (Rabs_right (/ (u * v))) by (left; apply Rinv_0_lt_compat; exact Huv).
     pose proof (Rabs_pos (v - u)) as PA.
     assert (Hinv : / (u * v) * ((1 - E) * (1 - E)) <= 1).
     { apply (Rmult_le_reg_l (u * v)); [exact Huv|]. rewrite <- Rmult_assoc, Rinv_r by lra. nra. }
-    simpl. pose proof (Rabs_pos (s - t)). nra.
+    set (A0 := Rabs (v - u)) in *. set (I := / (u * v)) in *.
+    replace (A0 * I * (1 - E) ^ 3) with ((A0 * (1 - E)) * (I * ((1 - E) * (1 - E)))) by (simpl; ring).
+    apply Rle_trans with (A0 * (1 - E) * 1); [apply Rmult_le_compat_l; [nra|exact Hinv]|lra].
   Qed.
 End Alg.
 
@@ -197,7 +210,8 @@ Proof.
   set (Y := Rabs (sin phi - sin psi)) in *. set (c3 := (1 - ecc2 a b) ^ 3) in *.
   assert (X <= Y / c3).
   { apply (Rmult_le_reg_r c3); [exact H3|]. unfold Rdiv. rewrite Rmult_assoc, Rinv_l by lra. lra. }
-  unfold Rdiv in *. rewrite Rmult_assoc. apply Rmult_le_compat_l; [exact Ha|]. lra.
+  unfold Rdiv in *. replace (ecc2 a b * a * / c3 * Y) with (ecc2 a b * a * (Y * / c3)) by ring.
+  apply Rmult_le_compat_l; [exact Ha|]. lra.
 Qed.
 
 Lemma N_lipschitz a b phi psi : 0 < b <= a ->
@@ -216,4 +230,396 @@ Proof.
   { apply (Rmult_le_reg_r c3); [exact H3|]. unfold Rdiv. rewrite Rmult_assoc, Rinv_l by lra. lra. }
   unfold Rdiv in *. replace (ecc2 a b * a * / c3 * Y) with (a * (ecc2 a b * Y * / c3)) by ring.
   apply Rmult_le_compat_l; [exact Ha|]. lra.
+Qed.
+
+(* ---------------------------------------------------------------- the loop body is a global contraction *)
+Section Contraction.
+  Variables a b phis lam h : R.        (* phis = the geodetic latitude (radians) of the point *)
+  Hypothesis Hab : 0 < b <= a.
+  Hypothesis Hh : - a < h.
+  Hypothesis Hphis : - (PI / 2) < phis < PI / 2.
+
+  Let E := ecc2 a b.
+  Let Ns := Nrad a b phis.
+  Let M := Ns + h.
+  Let x := M * cos phis * cos lam.
+  Let y := M * cos phis * sin lam.
+  Let z := (Ns * (1 - E) + h) * sin phis.
+  Let p := sqrt (x ^ 2 + y ^ 2).
+
+  Lemma M_pos : 0 < M.
+  Proof. unfold M, Ns. pose proof (Nrad_ge_a a b phis Hab). lra. Qed.
+  Lemma M_ge : a + h <= M.
+  Proof. unfold M, Ns. pose proof (Nrad_ge_a a b phis Hab). lra. Qed.
+
+  Lemma p_is : p = M * cos phis.
+  Proof.
+    assert (Hp : - (PI / 2) <= phis <= PI / 2) by lra.
+    exact (p_closed a b phis lam h Hab Hh Hp).
+  Qed.
+
+  (* numerator of the loop body = M sin(phis) + D(phi) *)
+  Let Dn (phi : R) : R := E * Nrad a b phi * sin phi - E * Ns * sin phis.
+
+  Lemma numerator_split phi : z + ecc2 a b * Nrad a b phi * sin phi = M * sin phis + Dn phi.
+  Proof. unfold z, Dn, M, E. ring. Qed.
+
+  Lemma Dn_bound phi : Rabs (Dn phi) <= Lip a b * Rabs (phi - phis) /\ Rabs (Dn phi) <= 2 * Lip a b.
+  Proof.
+    pose proof (F_lipschitz a b phi phis Hab) as F. fold E Ns in F. fold (Dn phi) in F.
+    pose proof (Lip_nonneg a b Hab) as L0. pose proof (sin_lipschitz phis phi) as SL.
+    assert (S2 : Rabs (sin phi - sin phis) <= 2).
+    { pose proof (SIN_bound phi). pose proof (SIN_bound phis). apply Rabs_le. lra. }
+    split; eapply Rle_trans; try exact F.
+    - apply Rmult_le_compat_l; [exact L0|exact SL].
+    - rewrite (Rmult_comm 2). apply Rmult_le_compat_l; [exact L0|exact S2].
+  Qed.
+
+  (* |T(phi) - phis| <= k |phi - phis|  for EVERY real phi,  k = Lip / (M - 2 Lip) *)
+  Lemma T_contraction phi : 2 * Lip a b < M ->
+    Rabs (Tgeo a b p z phi - phis) <= Lip a b / (M - 2 * Lip a b) * Rabs (phi - phis).
+  Proof.
+    intros HL. unfold Tgeo. rewrite numerator_split, p_is.
+    destruct (Dn_bound phi) as [D1 D2]. pose proof M_pos as HM. pose proof (Lip_nonneg a b Hab) as L0.
+    assert (HD : Rabs (Dn phi) < M) by lra.
+    eapply Rle_trans; [apply (atan2_perturb M (Dn phi) phis HM HD Hphis)|].
+    assert (Hc : 0 < cos phis <= 1) by (split; [apply cos_gt_0; lra|apply COS_bound]).
+    pose proof (Rabs_pos (Dn phi)) as P0. pose proof (Rabs_pos (phi - phis)) as P1.
+    assert (I1 : / (M - Rabs (Dn phi)) <= / (M - 2 * Lip a b)) by (apply Rinv_le_contravar; lra).
+    assert (I0 : 0 < / (M - 2 * Lip a b)) by (apply Rinv_0_lt_compat; lra).
+    assert (I2 : 0 < / (M - Rabs (Dn phi))) by (apply Rinv_0_lt_compat; lra).
+    unfold Rdiv.
+    apply Rle_trans with (Rabs (Dn phi) * 1 * / (M - 2 * Lip a b)).
+    - apply Rle_trans with (Rabs (Dn phi) * cos phis * / (M - 2 * Lip a b)).
+      + apply Rmult_le_compat_l; [nra|exact I1].
+      + apply Rmult_le_compat_r; [lra|]. apply Rmult_le_compat_l; lra.
+    - rewrite Rmult_1_r.
+      replace (Lip a b * / (M - 2 * Lip a b) * Rabs (phi - phis)) with (Lip a b * Rabs (phi - phis) * / (M - 2 * Lip a b)) by ring.
+      apply Rmult_le_compat_r; lra.
+  Qed.
+
+  (* the first estimate atan2(z, (1-e^2) p) is within kappa |sin phis| of phis, kappa = e^2|h| / ((1-e^2) M - e^2|h|) *)
+  Lemma init_error : E * Rabs h < (1 - E) * M ->
+    Rabs (phi_init a b p z - phis) <= E * Rabs h / ((1 - E) * M - E * Rabs h) * Rabs (sin phis).
+  Proof.
+    intros Hk. unfold phi_init. rewrite p_is. fold E.
+    pose proof (ecc2_range a b Hab) as HE. fold E in HE. pose proof M_pos as HM.
+    replace z with ((1 - E) * M * sin phis + E * h * sin phis) by (unfold z, M; ring).
+    replace ((1 - E) * (M * cos phis)) with ((1 - E) * M * cos phis) by ring.
+    assert (HM0 : 0 < (1 - E) * M) by nra.
+    pose proof (SIN_bound phis) as [S1 S2].
+    assert (HS : Rabs (sin phis) <= 1) by (apply Rabs_le; lra).
+    assert (HD0 : Rabs (E * h * sin phis) = E * Rabs h * Rabs (sin phis)).
+    { rewrite !Rabs_mult, (Rabs_right E) by lra. ring. }
+    pose proof (Rabs_pos h) as Ph. pose proof (Rabs_pos (sin phis)) as Ps.
+    assert (Q0 : 0 <= E * Rabs h) by nra.
+    assert (Q1 : E * Rabs h * Rabs (sin phis) <= E * Rabs h * 1) by (apply Rmult_le_compat_l; lra).
+    assert (HD : Rabs (E * h * sin phis) < (1 - E) * M) by (rewrite HD0; lra).
+    eapply Rle_trans; [apply (atan2_perturb ((1 - E) * M) (E * h * sin phis) phis HM0 HD Hphis)|].
+    assert (Hc : 0 < cos phis <= 1) by (split; [apply cos_gt_0; lra|apply COS_bound]).
+    rewrite HD0.
+    assert (I1 : / ((1 - E) * M - E * Rabs h * Rabs (sin phis)) <= / ((1 - E) * M - E * Rabs h)).
+    { apply Rinv_le_contravar; lra. }
+    assert (I0 : 0 < / ((1 - E) * M - E * Rabs h)) by (apply Rinv_0_lt_compat; lra).
+    unfold Rdiv.
+    apply Rle_trans with (E * Rabs h * Rabs (sin phis) * 1 * / ((1 - E) * M - E * Rabs h)).
+    - apply Rle_trans with (E * Rabs h * Rabs (sin phis) * cos phis * / ((1 - E) * M - E * Rabs h)).
+      + assert (Q2 : 0 <= E * Rabs h * Rabs (sin phis)) by (apply Rmult_le_pos; lra).
+        apply Rmult_le_compat_l; [|exact I1]. apply Rmult_le_pos; lra.
+      + assert (Q2 : 0 <= E * Rabs h * Rabs (sin phis)) by (apply Rmult_le_pos; lra).
+        apply Rmult_le_compat_r; [lra|]. apply Rmult_le_compat_l; lra.
+    - right. ring.
+  Qed.
+
+  (* ------------------------------------------------------------ every exit of the loop is close to phis *)
+  Variable q : R.
+  Hypothesis Hq : 0 <= q < 1.
+  Hypothesis HL : 2 * Lip a b < M.
+  Hypothesis Hk : Lip a b / (M - 2 * Lip a b) <= q.
+  Hypothesis Hkap0 : E * Rabs h < (1 - E) * M.
+  Hypothesis Hkap : E * Rabs h / ((1 - E) * M - E * Rabs h) <= q.
+
+  Let eps := geo_delta * q / (1 - q).
+
+  Lemma eps_fix e d : 0 <= d <= geo_delta -> e <= q * (d + e) -> e <= eps.
+  Proof.
+    intros Hd He. unfold eps. apply (Rmult_le_reg_r (1 - q)); [lra|].
+    unfold Rdiv. rewrite Rmult_assoc, Rinv_l by lra. nra.
+  Qed.
+
+  Lemma T_q phi : Rabs (Tgeo a b p z phi - phis) <= q * Rabs (phi - phis).
+  Proof.
+    eapply Rle_trans; [apply (T_contraction phi HL)|]. apply Rmult_le_compat_r; [apply Rabs_pos|exact Hk].
+  Qed.
+
+  (* invariant of the recursive calls: the current latitude is T of the previous one and N was computed from the previous one *)
+  Lemma loop_exit_T fuel : forall lo lat Nr,
+    geo_loop fuel a b p z lo (Tgeo a b p z lo) (Nrad a b lo) = Some (lat, Nr) ->
+    Rabs (lat - phis) <= eps /\ exists lo', Nr = Nrad a b lo' /\ Rabs (lo' - lat) <= geo_delta.
+  Proof.
+    assert (Exit : forall lo, ~ geo_delta < Rabs (lo - Tgeo a b p z lo) -> Rabs (Tgeo a b p z lo - phis) <= eps).
+    { intros lo C. apply (eps_fix _ (Rabs (lo - Tgeo a b p z lo))); [split; [apply Rabs_pos|lra]|].
+      eapply Rle_trans; [apply T_q|]. apply Rmult_le_compat_l; [lra|].
+      replace (lo - phis) with ((lo - Tgeo a b p z lo) + (Tgeo a b p z lo - phis)) by ring. apply Rabs_triang. }
+    induction fuel as [|f IH]; intros lo lat Nr; simpl.
+    - destruct (Rlt_dec geo_delta (Rabs (lo - Tgeo a b p z lo))) as [C|C]; [discriminate|].
+      intros H. injection H as <- <-. split; [exact (Exit lo C)|]. exists lo. split; [reflexivity|lra].
+    - destruct (Rlt_dec geo_delta (Rabs (lo - Tgeo a b p z lo))) as [C|C].
+      + intros H. exact (IH _ _ _ H).
+      + intros H. injection H as <- <-. split; [exact (Exit lo C)|]. exists lo. split; [reflexivity|lra].
+  Qed.
+
+  (* the whole loop, started as the code starts it: lat_old = 0, lat = first estimate, N = N(first estimate) *)
+  Lemma loop_exit fuel lat Nr :
+    geo_loop fuel a b p z 0 (phi_init a b p z) (Nrad a b (phi_init a b p z)) = Some (lat, Nr) ->
+    Rabs (lat - phis) <= eps /\ exists lo', Nr = Nrad a b lo' /\ Rabs (lo' - lat) <= geo_delta.
+  Proof.
+    set (l0 := phi_init a b p z).
+    assert (Exit0 : ~ geo_delta < Rabs (0 - l0) -> Rabs (l0 - phis) <= eps).
+    { intros C. pose proof (init_error Hkap0) as IE. fold l0 in IE.
+      assert (Hl0 : Rabs l0 <= geo_delta) by (rewrite Rminus_0_l, Rabs_Ropp in C; lra).
+      apply (eps_fix _ (Rabs l0)); [split; [apply Rabs_pos|exact Hl0]|].
+      eapply Rle_trans; [exact IE|].
+      assert (S1 : Rabs (sin phis) <= Rabs l0 + Rabs (l0 - phis)).
+      { eapply Rle_trans; [apply Rabs_sin_le|]. replace phis with (l0 + - (l0 - phis)) at 1 by ring.
+        eapply Rle_trans; [apply Rabs_triang|]. rewrite Rabs_Ropp. lra. }
+      pose proof (Rabs_pos (sin phis)).
+      apply Rle_trans with (q * Rabs (sin phis)); [apply Rmult_le_compat_r; [lra|exact Hkap]|].
+      apply Rmult_le_compat_l; lra. }
+    assert (G0 : 0 < geo_delta) by (unfold geo_delta; lra).
+    destruct fuel as [|f]; simpl.
+    - destruct (Rlt_dec geo_delta (Rabs (0 - l0))) as [C|C]; [discriminate|].
+      intros H. injection H as <- <-. split; [exact (Exit0 C)|]. exists l0. split; [reflexivity|].
+      unfold Rminus. rewrite Rplus_opp_r, Rabs_R0. lra.
+    - destruct (Rlt_dec geo_delta (Rabs (0 - l0))) as [C|C].
+      + intros H. exact (loop_exit_T f _ _ _ H).
+      + intros H. injection H as <- <-. split; [exact (Exit0 C)|]. exists l0. split; [reflexivity|].
+        unfold Rminus. rewrite Rplus_opp_r, Rabs_R0. lra.
+  Qed.
+
+  (* height returned at such an exit *)
+  Lemma height_error lat lo' : Rabs (lat - phis) <= eps -> Rabs (lo' - lat) <= geo_delta -> eps < cos phis ->
+    Rabs (geo_height p lat (Nrad a b lo') - h) <= M * eps / (cos phis - eps) + Lip a b * (geo_delta + eps).
+  Proof.
+    intros H1 H2 H3. unfold geo_height. rewrite p_is. pose proof M_pos as HM.
+    pose proof (cos_lipschitz phis lat) as CL.
+    assert (Hcl : cos phis - eps <= cos lat).
+    { assert (CL' : Rabs (cos lat - cos phis) <= eps) by lra. apply Rabs_le_inv in CL'. lra. }
+    assert (Hcl0 : 0 < cos lat) by lra.
+    replace (M * cos phis / cos lat - Nrad a b lo' - h) with (M * ((cos phis - cos lat) / cos lat) - (Nrad a b lo' - Ns))
+      by (unfold M; field; lra).
+    eapply Rle_trans; [apply Rabs_triang|]. rewrite Rabs_Ropp.
+    apply Rplus_le_compat.
+    - rewrite Rabs_mult, (Rabs_right M) by lra. unfold Rdiv at 2. rewrite Rmult_assoc.
+      apply Rmult_le_compat_l; [lra|].
+      unfold Rdiv. rewrite Rabs_mult, (Rabs_right (/ cos lat)) by (left; apply Rinv_0_lt_compat; lra).
+      assert (E1 : Rabs (cos phis - cos lat) <= eps) by (rewrite Rabs_minus_sym; lra).
+      assert (E0 : 0 <= eps) by (pose proof (Rabs_pos (lat - phis)); lra).
+      assert (I1 : / cos lat <= / (cos phis - eps)) by (apply Rinv_le_contravar; lra).
+      assert (I0 : 0 < / cos lat) by (apply Rinv_0_lt_compat; lra).
+      pose proof (Rabs_pos (cos phis - cos lat)).
+      apply Rle_trans with (eps * / cos lat); [apply Rmult_le_compat_r; lra|apply Rmult_le_compat_l; lra].
+    - eapply Rle_trans; [apply (N_lipschitz a b lo' phis Hab)|]. fold Ns.
+      apply Rmult_le_compat_l; [apply (Lip_nonneg a b Hab)|].
+      eapply Rle_trans; [apply sin_lipschitz|].
+      replace (lo' - phis) with ((lo' - lat) + (lat - phis)) by ring.
+      eapply Rle_trans; [apply Rabs_triang|]. lra.
+  Qed.
+
+  (* the model's return value *)
+  Lemma model_roundtrip fuel la lo hh : - PI < lam <= PI ->
+    ecef2geodetic_model fuel a b x y z = Val [la; lo; hh] ->
+    Rabs (la * (PI / 180) - phis) <= eps /\ lo = lam * (180 / PI) /\
+    (eps < cos phis -> Rabs (hh - h) <= M * eps / (cos phis - eps) + Lip a b * (geo_delta + eps)).
+  Proof.
+    intros Hl. unfold ecef2geodetic_model. cbv zeta. fold p.
+    destruct (geo_loop fuel a b p z 0 (phi_init a b p z) (Nrad a b (phi_init a b p z))) as [[lat Nr]|] eqn:G; [|discriminate].
+    intros H. apply Val_inv3 in H. destruct H as (H1 & H2 & H3).
+    destruct (loop_exit fuel lat Nr G) as (B & lo' & -> & Bl).
+    split; [|split].
+    - rewrite <- H1. replace (lat * (180 / PI) * (PI / 180)) with lat by (field; apply PI_neq0). exact B.
+    - rewrite <- H2. f_equal. exact (lon_recovered a b phis lam h Hab Hh Hphis Hl).
+    - intros Hc. rewrite <- H3. exact (height_error lat lo' B Bl Hc).
+  Qed.
+End Contraction.
+
+(* ---------------------------------------------------------------- statements over the regenerated code *)
+Lemma Rdiv_le_q X Y q : 0 < Y -> X <= q * Y -> X / Y <= q.
+Proof.
+  intros HY H. apply (Rmult_le_reg_r Y); [exact HY|]. unfold Rdiv. rewrite Rmult_assoc, Rinv_l by lra. lra.
+Qed.
+
+(* geodetic -> ECEF -> geodetic through the code, any height: explicit error bound at every exit of the loop.
+   Hypotheses on q are stated with the lower bound a + h <= N + h so that they do not mention the latitude. *)
+Lemma geodetic_roundtrip_bound lat lon h a b q x y z la lo hh :
+  0 < b <= a -> - a < h -> Rabs lat < 90 -> - 180 < lon <= 180 -> 0 <= q < 1 ->
+  2 * Lip a b < a + h -> Lip a b <= q * (a + h - 2 * Lip a b) ->
+  ecc2 a b * Rabs h < (1 - ecc2 a b) * (a + h) ->
+  ecc2 a b * Rabs h <= q * ((1 - ecc2 a b) * (a + h) - ecc2 a b * Rabs h) ->
+  C17_geodetic2ecef_ab_R lat lon h a b = Val [x; y; z] -> C17_ecef2geodetic_ab_u_R x y z a b = Val [la; lo; hh] ->
+  let eps := geo_delta * q / (1 - q) in
+  let M := Nrad a b (rad lat) + h in
+  Rabs (rad la - rad lat) <= eps /\ lo = lon /\
+  (eps < cos (rad lat) -> Rabs (hh - h) <= M * eps / (cos (rad lat) - eps) + Lip a b * (geo_delta + eps)).
+Proof.
+  intros Hab Hh H1 H2 Hq HL Hk Hkap0 Hkap G Ec. cbv zeta.
+  assert (L1 : Rabs lat <= 90) by lra. assert (L2 : Rabs lon <= 180) by (apply Rabs_le; lra).
+  rewrite (geodetic2ecef_ab_spec _ _ _ _ _ L1 L2) in G. unfold geodetic2ecef_spec in G. apply Val_inv3 in G.
+  destruct G as (<- & <- & <-). rewrite unrolled_is_model in Ec.
+  pose proof (deg_guard_lat_strict lat H1) as P1. pose proof (deg_guard_lon lon H2) as P2.
+  pose proof (M_ge a b (rad lat) h Hab) as MG. pose proof (Lip_nonneg a b Hab) as L0.
+  pose proof (ecc2_range a b Hab) as HE. pose proof (Rabs_pos h) as Ph.
+  set (M := Nrad a b (rad lat) + h) in *.
+  assert (HL' : 2 * Lip a b < M) by lra.
+  assert (Hk' : Lip a b / (M - 2 * Lip a b) <= q).
+  { apply Rdiv_le_q; [lra|]. apply Rle_trans with (q * (a + h - 2 * Lip a b)); [exact Hk|]. apply Rmult_le_compat_l; lra. }
+  assert (HMM : (1 - ecc2 a b) * (a + h) <= (1 - ecc2 a b) * M) by (apply Rmult_le_compat_l; lra).
+  assert (Hkap0' : ecc2 a b * Rabs h < (1 - ecc2 a b) * M) by lra.
+  assert (Hkap' : ecc2 a b * Rabs h / ((1 - ecc2 a b) * M - ecc2 a b * Rabs h) <= q).
+  { apply Rdiv_le_q; [lra|]. eapply Rle_trans; [exact Hkap|]. apply Rmult_le_compat_l; lra. }
+  destruct (model_roundtrip a b (rad lat) (rad lon) h Hab Hh P1 q Hq HL' Hk' Hkap0' Hkap' 5 la lo hh P2 Ec) as (A & B & C).
+  split; [|split].
+  - replace (rad la - rad lat) with (la * (PI / 180) - rad lat) by (unfold rad; field). exact A.
+  - rewrite B. unfold rad. field. apply PI_neq0.
+  - exact C.
+Qed.
+
+(* Earth-like ellipsoids (e^2 <= 0.012: Earth 0.0067, Mars 0.0117), heights from -1% to +1/6 of the equatorial radius
+   (WGS84: -63 km .. 1063 km, which contains the property's -10 km .. 1000 km):  q = 1/75, i.e. the returned latitude is
+   within delta/74 = 1.35e-10 rad of the true one — below 1e-8 degrees — and the longitude is exact *)
+Lemma Lip_earthlike a b : 0 < b <= a -> ecc2 a b <= 3 / 250 -> Lip a b <= a / 80.
+Proof.
+  intros Hab HE. pose proof (ecc2_range a b Hab) as [E0 E1]. unfold Lip. set (E := ecc2 a b) in *.
+  assert (C3 : 1 - 3 * E <= (1 - E) ^ 3) by (simpl; nra).
+  assert (P3 : 0 < (1 - E) ^ 3) by lra.
+  apply (Rmult_le_reg_r ((1 - E) ^ 3)); [exact P3|]. unfold Rdiv. rewrite Rmult_assoc, Rinv_l by lra.
+  assert (E * 80 <= (1 - E) ^ 3) by lra. nra.
+Qed.
+
+Lemma geodetic_roundtrip_earthlike lat lon h a b x y z la lo hh :
+  0 < b <= a -> ecc2 a b <= 3 / 250 -> - a / 100 <= h <= a / 6 -> Rabs lat < 90 -> - 180 < lon <= 180 ->
+  C17_geodetic2ecef_ab_R lat lon h a b = Val [x; y; z] -> C17_ecef2geodetic_ab_u_R x y z a b = Val [la; lo; hh] ->
+  Rabs (rad la - rad lat) <= geo_delta / 74 /\ Rabs (la - lat) <= 1 / 100000000 /\ lo = lon.
+Proof.
+  intros Hab HE Hh H1 H2 G Ec. pose proof (Lip_earthlike a b Hab HE) as LE. pose proof (Lip_nonneg a b Hab) as L0.
+  pose proof (ecc2_range a b Hab) as [E0 E1]. assert (Ha : 0 < a) by lra.
+  assert (Hh' : - a < h) by lra.
+  assert (Ph : Rabs h <= a / 6) by (apply Rabs_le; lra).
+  pose proof (Rabs_pos h) as Ph0.
+  assert (Q : 0 <= 1 / 75 < 1) by lra.
+  assert (K0 : ecc2 a b * Rabs h <= 3 / 250 * (a / 6)).
+  { apply Rmult_le_compat; lra. }
+  assert (K1 : (1 - 3 / 250) * (a + h) <= (1 - ecc2 a b) * (a + h)) by (apply Rmult_le_compat_r; lra).
+  destruct (geodetic_roundtrip_bound lat lon h a b (1 / 75) x y z la lo hh Hab Hh' H1 H2 Q) as (A & B & _);
+    try assumption; try nra.
+  replace (geo_delta * (1 / 75) / (1 - 1 / 75)) with (geo_delta / 74) in A by field.
+  split; [exact A|]. split; [|exact B].
+  assert (Hpi : 3 < PI) by (pose proof PI2_3_2; lra).
+  replace (la - lat) with ((rad la - rad lat) * (180 / PI)) by (unfold rad; field; lra).
+  rewrite Rabs_mult, (Rabs_right (180 / PI)) by (left; apply Rdiv_lt_0_compat; lra).
+  assert (D : 180 / PI <= 60).
+  { apply (Rmult_le_reg_r PI); [lra|]. unfold Rdiv. rewrite Rmult_assoc, Rinv_l by lra. lra. }
+  pose proof (Rabs_pos (rad la - rad lat)). unfold geo_delta in *.
+  assert (D0 : 0 <= 180 / PI) by (left; apply Rdiv_lt_0_compat; lra).
+  apply Rle_trans with (1 / 100000000 / 74 * 60); [apply Rmult_le_compat; assumption|lra].
+Qed.
+
+(* ---------------------------------------------------------------- (b) the poles *)
+(* N(+-PI/2) (1 - e^2) = b: on the polar axis z = +-(b + h), so h = |z| - b there *)
+Lemma N_pole a b : 0 < b <= a -> Nrad a b (PI / 2) * (1 - ecc2 a b) = b /\ Nrad a b (- (PI / 2)) * (1 - ecc2 a b) = b.
+Proof.
+  intros [Hb Hab]. assert (Ha : 0 < a) by lra.
+  assert (R : 1 - ecc2 a b * 1 ^ 2 = (b / a) * (b / a)) by (unfold ecc2; field; lra).
+  assert (Q : 0 < b / a) by (apply Rdiv_lt_0_compat; lra).
+  assert (N1 : a / sqrt (1 - ecc2 a b * 1 ^ 2) * (1 - ecc2 a b) = b).
+  { rewrite R, sqrt_sq_abs, Rabs_right by lra. unfold ecc2. field. lra. }
+  unfold Nrad. rewrite sin_neg, sin_PI2. split; [exact N1|].
+  replace ((- (1)) ^ 2) with (1 ^ 2) by ring. exact N1.
+Qed.
+
+(* the true limit statement: along the meridian the height formula is CONSTANT = h for every |phi| < 90 deg, and this
+   constant is |z_pole| - b, the height measured on the polar axis; so  p/cos(phi) - N -> |z_pole| - b  as cos(phi) -> 0.
+   The real-number model evaluates the formula AT the pole as 0/0 = 0 (pole_height_degenerate), the float code evaluates
+   it with cos(fl(pi/2)) = 6.1e-17 in numerator (via geodetic2ecef) and denominator, which cancels. *)
+Lemma pole_height_limit a b h lam : 0 < b <= a -> - b < h ->
+  let zp := (Nrad a b (PI / 2) * (1 - ecc2 a b) + h) * sin (PI / 2) in
+  Rabs zp - b = h /\
+  forall phi, - (PI / 2) < phi < PI / 2 ->
+    let N := Nrad a b phi in
+    let p := sqrt (((N + h) * cos phi * cos lam) ^ 2 + ((N + h) * cos phi * sin lam) ^ 2) in
+    geo_height p phi N = Rabs zp - b.
+Proof.
+  intros Hab Hb. assert (Hh : - a < h) by lra. cbv zeta. destruct (N_pole a b Hab) as [NP _]. rewrite NP, sin_PI2, Rmult_1_r.
+  assert (Hz : Rabs (b + h) - b = h) by (rewrite Rabs_right; lra).
+  split; [exact Hz|]. intros phi Hphi. rewrite Hz.
+  assert (Hp : - (PI / 2) <= phi <= PI / 2) by lra.
+  exact (height_at_fixed_point a b phi lam h Hab Hh Hp Hphi).
+Qed.
+
+(* in epsilon-delta form *)
+Lemma pole_height_limit_eps a b h lam : 0 < b <= a -> - b < h ->
+  forall eps, 0 < eps -> exists alp, 0 < alp /\ forall phi, - (PI / 2) < phi < PI / 2 -> Rabs (phi - PI / 2) < alp ->
+    let N := Nrad a b phi in
+    let p := sqrt (((N + h) * cos phi * cos lam) ^ 2 + ((N + h) * cos phi * sin lam) ^ 2) in
+    Rabs (geo_height p phi N - (Rabs ((Nrad a b (PI / 2) * (1 - ecc2 a b) + h) * sin (PI / 2)) - b)) < eps.
+Proof.
+  intros Hab Hh eps He. exists 1. split; [lra|]. intros phi Hphi _. cbv zeta.
+  destruct (pole_height_limit a b h lam Hab Hh) as [_ L]. cbv zeta in L. rewrite (L phi Hphi).
+  unfold Rminus. rewrite Rplus_opp_r, Rabs_R0. exact He.
+Qed.
+
+(* ---------------------------------------------------------------- (c) the antimeridian *)
+(* in the real-number model longitude -180 comes back as +180: equal modulo 360, and it is the only such case *)
+Lemma lon_antimeridian lat h a b x y z : 0 < b <= a -> - a < h -> Rabs lat < 90 ->
+  C17_geodetic2ecef_ab_R lat (-180) h a b = Val [x; y; z] -> atan2 y x * (180 / PI) = 180.
+Proof.
+  intros Hab Hh H1 G.
+  assert (L1 : Rabs lat <= 90) by lra. assert (L2 : Rabs (-180) <= 180) by (rewrite Rabs_left; lra).
+  rewrite (geodetic2ecef_ab_spec _ _ _ _ _ L1 L2) in G. unfold geodetic2ecef_spec in G. apply Val_inv3 in G.
+  destruct G as (<- & <- & _).
+  assert (R : rad (-180) = - PI) by (unfold rad; field).
+  rewrite R, cos_neg, sin_neg. pose proof PI_RGT_0.
+  replace (- sin PI) with (sin PI) by (rewrite sin_PI; ring).
+  rewrite (lon_recovered a b (rad lat) PI h Hab Hh (deg_guard_lat_strict lat H1)) by lra.
+  field. lra.
+Qed.
+
+Lemma geodetic_roundtrip_lon_mod360 lat lon h a b x y z la lo hh :
+  0 < b <= a -> - a < h -> Rabs lat < 90 -> Rabs lon <= 180 ->
+  C17_geodetic2ecef_ab_R lat lon h a b = Val [x; y; z] -> C17_ecef2geodetic_ab_u_R x y z a b = Val [la; lo; hh] ->
+  (lon <> -180 -> lo = lon) /\ (lon = -180 -> lo = lon + 360) /\ - 180 < lo <= 180.
+Proof.
+  intros Hab Hh H1 H2 G Ec. apply Rabs_le_inv in H2.
+  assert (Hlo : lo = atan2 y x * (180 / PI)) by (rewrite unrolled_is_model in Ec; exact (model_lon _ _ _ _ _ _ _ _ _ Ec)).
+  destruct (Req_dec lon (-180)) as [E|E].
+  - subst lon. rewrite (lon_antimeridian lat h a b x y z Hab Hh H1 G) in Hlo. subst lo.
+    split; [intros N; contradiction|]. split; [intros _; ring|lra].
+  - assert (H2' : -180 < lon <= 180) by lra.
+    pose proof (geodetic_roundtrip_lon lat lon h a b x y z la lo hh Hab Hh H1 H2' G Ec) as R.
+    split; [intros _; exact R|]. split; [intros N; contradiction|lra].
+Qed.
+
+(* ---------------------------------------------------------------- the contraction, stated on geodetic2ecef's output *)
+Lemma T_contraction_code lat lon h a b x y z phi : 0 < b <= a -> - a < h -> Rabs lat < 90 -> Rabs lon <= 180 ->
+  2 * Lip a b < a + h ->
+  C17_geodetic2ecef_ab_R lat lon h a b = Val [x; y; z] ->
+  Rabs (Tgeo a b (sqrt (x ^ 2 + y ^ 2)) z phi - rad lat) <= Lip a b / (a + h - 2 * Lip a b) * Rabs (phi - rad lat).
+Proof.
+  intros Hab Hh H1 H2 HL G. assert (L1 : Rabs lat <= 90) by lra.
+  rewrite (geodetic2ecef_ab_spec _ _ _ _ _ L1 H2) in G. unfold geodetic2ecef_spec in G. apply Val_inv3 in G.
+  destruct G as (<- & <- & <-).
+  pose proof (deg_guard_lat_strict lat H1) as P1.
+  pose proof (M_ge a b (rad lat) h Hab) as MG. pose proof (Lip_nonneg a b Hab) as L0.
+  assert (HL' : 2 * Lip a b < Nrad a b (rad lat) + h) by lra.
+  eapply Rle_trans; [exact (T_contraction a b (rad lat) (rad lon) h Hab Hh P1 phi HL')|].
+  apply Rmult_le_compat_r; [apply Rabs_pos|]. unfold Rdiv. apply Rmult_le_compat_l; [exact L0|].
+  apply Rinv_le_contravar; lra.
+Qed.
+
+(* non-vacuity: WGS84 satisfies the Earth-like hypotheses on the property's whole height range *)
+Example earthlike_nonvacuous :
+  0 < 63567523142 / 10000 <= 6378137 /\ ecc2 6378137 (63567523142 / 10000) <= 3 / 250 /\
+  - 6378137 / 100 <= -10000 /\ 1000000 <= 6378137 / 6.
+Proof.
+  split; [lra|]. split; [|lra]. unfold ecc2. apply Rdiv_le_q; simpl; lra.
 Qed.
